@@ -23,7 +23,7 @@ from common import REPO, VERIF, run
 CACHE = os.path.join(VERIF, ".cache", "replay")
 
 MOMENT_TYPES = {"Moments4": None, "M4": 4, "M5": 5, "M6": 6, "M8": 8, "M10": 10}
-HIST_TYPES = {"Histogram10": None, "H1": 1, "H2": 2, "H3": 3, "H4": 4}
+HIST_TYPES = {"Histogram10": None, "H1": 1, "H2": 2, "H3": 3, "H4": 4, "H33": 33, "H100": 100}
 
 
 def bits(x):
